@@ -254,3 +254,28 @@ func isNoReturn(i ssa.Instruction) bool {
 	}
 	return false
 }
+
+// boolTest is an If deciding on the boolean v (possibly negated).
+type boolTest struct {
+	If       *ssa.If
+	TrueSucc int /* successor index on which v is true */
+}
+
+// boolTestsOf returns the Ifs of fn whose condition is v or !v.
+func boolTestsOf(fn *ssa.Function, v ssa.Value) []boolTest {
+	var out []boolTest
+	for _, b := range fn.Blocks {
+		ifi := blockIf(b)
+		if nil == ifi {
+			continue
+		}
+		if dc := decodeCond(ifi.Cond); nil == dc.Y && dc.X == v {
+			k := 0
+			if !dc.Eq {
+				k = 1
+			}
+			out = append(out, boolTest{ifi, k})
+		}
+	}
+	return out
+}
